@@ -117,8 +117,14 @@ def gen(rng, tier, index):
         "len": rng.choice([30, 60, 120]),
         "setup": _gen_lf_ops(rng, rng.randint(0, 3), depth=1),
         "with_undo": True,
+        "trace": False,
     }
     if level == "calc":
+        r = rng.random()
+        if r < 0.05:
+            plan["with_undo"] = False
+        elif r < 0.13:
+            plan["trace"] = True
         plan["ops"] = _gen_calc_ops(rng, rng.randint(4, 14 if tier == "quick" else 40))
     else:
         plan["ops"] = _gen_lf_ops(rng, rng.randint(3, 9 if tier == "quick" else 24))
@@ -442,7 +448,8 @@ def run_calc(plan, res: RunResult):
                 apply_lf_op(ctx, op, res)
             except Exception:  # noqa: BLE001
                 pass
-        calc = lf.make_calculator()
+        mk = {"with_undo": plan.get("with_undo", True), "trace": plan.get("trace", False)}
+        calc = lf.make_calculator(**mk)
         n = len(calc.opt_pars)
         if n == 0:
             res.probe("no-free-parameters")
@@ -540,6 +547,10 @@ def run_calc(plan, res: RunResult):
                     all(c in changes for c in last_change):
                 res.probe("undo-shortcut-taken")
             path = "cancel" if raised is not None else ("undo" if name == "revert" else name)
+            if plan.get("trace"):
+                path = f"trace-{path}"
+            elif not plan.get("with_undo", True):
+                path = f"noundo-{path}"
             trace.append(f"{name}{'!' if raised is not None else ''}{len(changes)}")
             if raised is None:
                 last_change = [(i, cur[i]) for i, _v in changes]
@@ -596,7 +607,8 @@ def run_calc(plan, res: RunResult):
 
 def run(plan, tier="quick") -> RunResult:
     res = RunResult()
-    res.config = plan["level"] + ("-fault-free" if plan.get("fault_free") else "")
+    res.config = plan["level"] + ("-fault-free" if plan.get("fault_free") else "") + (
+        "-trace" if plan.get("trace") else "") + ("" if plan.get("with_undo", True) else "-noundo")
     res.sample_trace = []
     res.values = []  # every observed value: part of the run digest
     out = io.StringIO()
